@@ -353,7 +353,27 @@ func genbankFeatureParser(gb *GenBank, depth int) pars.Parser {
 
 func genbankContigParser(gb *GenBank, depth int) pars.Parser {
 	fieldNameParser := genbankFieldNameParser("CONTIG", depth)
-	untilColon := pars.Until(byte(':'))
+	// The accession ends at the colon and does not run past its line: looking
+	// for the colon in the rest of the input makes a file of malformed CONTIG
+	// lines quadratic to reject.
+	untilColon := func(state *pars.State, result *pars.Result) error {
+		for n := 0; ; n++ {
+			if err := state.Request(n + 1); err != nil {
+				return err
+			}
+			switch state.Buffer()[n] {
+			case ':':
+				if err := state.Request(n); err != nil {
+					return err
+				}
+				result.SetToken(append([]byte(nil), state.Buffer()...))
+				state.Advance()
+				return nil
+			case '\n', '\r':
+				return pars.NewError("expected `:`", state.Position())
+			}
+		}
+	}
 	l, m, r := pars.String("join("), pars.String(".."), pars.Byte(')')
 	return func(state *pars.State, result *pars.Result) error {
 		if err := fieldNameParser(state, result); err != nil {
